@@ -26,16 +26,37 @@ func lcgBody(seed uint64, n int) []byte {
 	return b
 }
 
+// cycBody mirrors C19c.cyc_body: the 251 bytes lcgBody(seed, 251) repeated. Used for the bodies at
+// the upper end of the quantified range (around 1 MiB), where lcg_body would cost the Coq side ~20 s
+// per case (one division per byte); 251 is prime, so a lost or repeated block shifts what follows.
+func cycBody(seed uint64, n int) []byte {
+	pat := lcgBody(seed, 251)
+	b := make([]byte, n)
+	for i := range b {
+		b[i] = pat[i%251]
+	}
+	return b
+}
+
+const trMiB = 1 << 20
+
+// the body sizes at the upper end of the range the property quantifies over (0..1 MiB)
+var trEdgeSizes = []int{trMiB - 4096, trMiB - 1, trMiB}
+
 // bigRef remembers the one large filler of a case so that the Coq term can
 // share it through a let binding instead of spelling out a megabyte.
 type bigRef struct {
 	seed uint64
 	body []byte
+	cyc  bool // cycBody / cyc_body instead of lcgBody / lcg_body
 }
 
 func (b *bigRef) coqLet(term string) string {
 	if b == nil {
 		return term
+	}
+	if b.cyc {
+		return fmt.Sprintf("let bigbody := cyc_body %d %d in %s", b.seed, len(b.body), term)
 	}
 	return fmt.Sprintf("let bigbody := lcg_body %d %d in %s", b.seed, len(b.body), term)
 }
@@ -170,6 +191,11 @@ func genStrs(r *rand.Rand) []string {
 }
 
 func genBody(r *rand.Rand, size int) ([]byte, *bigRef) {
+	if size > 1<<17 {
+		seed := uint64(1 + r.Intn(1000))
+		b := cycBody(seed, size)
+		return b, &bigRef{seed: seed, body: b, cyc: true}
+	}
 	if size >= 1024 {
 		seed := uint64(1 + r.Intn(1000))
 		b := lcgBody(seed, size)
@@ -251,6 +277,27 @@ func genEnvelopes(r *rand.Rand, sizes []int, extra int) []genEnv {
 		out = append(out, genEnv{e, big})
 	}
 	return out
+}
+
+// genEdgeEnvelopes: the upper end of the body range: 1 MiB - 4096, 1 MiB - 1 and exactly 1 MiB with
+// nothing but a minimal header around them, and 1 MiB inside an envelope with every sub-message
+// present and the long strings (the largest encoding the property still covers). Every transport rig
+// carries them in every tier: a size-dependent refusal anywhere up to there is a lost envelope.
+func genEdgeEnvelopes(r *rand.Rand) []genEnv {
+	out := []genEnv{}
+	for i, size := range trEdgeSizes {
+		b, big := genBody(r, size)
+		out = append(out, genEnv{&Rpc{Id: uint64(900 + i), Header: &goatorepo.RequestHeader{Method: "/verif.Echo/Unary", Source: "a", Destination: "srv"},
+			Body: &goatorepo.Body{Data: b}}, big})
+	}
+	e, big := genEnvelope(r, 31, 1<<64-1, trMiB)
+	long := strings.Repeat("long-", 60)
+	e.Header.Method, e.Header.Source, e.Header.Destination = long, "a", long
+	e.Header.Headers = []*goatorepo.KeyValue{{Key: long, Value: long}, {Key: "k-bin", Value: long}, {Key: "日本語", Value: "héllo wörld ✓"}}
+	e.Header.ProxyRecord, e.Header.ProxyNext = []string{long, long, long}, []string{long, long, long}
+	e.Status.Message = long
+	e.Trailer.Metadata = []*goatorepo.KeyValue{{Key: long, Value: long}, {Key: long, Value: long}}
+	return append(out, genEnv{e, big})
 }
 
 // unmarshalRpc is proto.Unmarshal; nil = rejected. The printers only read the
